@@ -217,7 +217,7 @@ CHECKS = {
                 "and up to 4 registries, re-using parsed objects, against a memo of the first verdict; (3) read-only: reflect walk over every exported field of the linted object vs an "
                 "unlinted twin; (4) a bundle of corpus + generated objects linted in a fresh process (oneshot, CGO off) - digests must equal the in-process ones under rapid-generated "
                 "environments (TZ, LANG, HOME, TMPDIR, unrelated variables, cwd, empty env) - and under strace -f: no file, network, process or descriptor I/O system call may start "
-                "inside the marked lint window. Non-trivial = object with >=1 finding carrying details (distinct by case hash), a history of >=3 steps over >=2 registries, or an environment. Predecessor sweep (enumerated): for every lint, every corpus object on which it reports (and some on which it passes; up to 5 / 12) is linted immediately before every object of the kind (corpus + synthetic rich CRLs / OCSP responses) - the victim's status and details must be what they are after any other predecessor (~1.8 M pairs). Corpus with lengthened lists (SAN arms, policies, key purposes, organizational units padded to 3, 5, 6, 7 ... entries with capital letters, so parser-built slices have spare capacity): read-only and repetition.",
+                "inside the marked lint window. Non-trivial = object with >=1 finding carrying details (distinct by case hash), a history of >=3 steps over >=2 registries, or an environment. Predecessor sweep (enumerated): for every lint, every corpus object on which it reports (and some on which it passes; up to 5 / 12) is linted immediately before every object of the kind (corpus + synthetic rich CRLs / OCSP responses) - the victim's status and details must be what they are after any other predecessor (~1.8 M pairs). Corpus with lengthened lists (SAN arms, policies, key purposes, organizational units padded to 3, 5, 6, 7 ... entries with capital letters, so parser-built slices have spare capacity): read-only and repetition. Corpus in another order: each shard lints the whole corpus (full registry) in a seed-derived permutation - every object's verdicts equal those of the file-name-order pass.",
         "assumptions": COMMON_ASSUME + ["reads/writes on the Go runtime's own eventfd/pipe wake-up descriptors are not I/O of the linted code",
                                          "os.Getenv is not a system call: it is attacked through environment perturbation only",
                                          "I/O freedom is observed on executed paths only"],
